@@ -389,10 +389,6 @@ func c05Verdicts(c *Ctx, b []byte, modelOps bool) {
 			// Decoder.Decode skips one leading ',' or ':' (PrepareForDecode) whatever the token state
 			cl = "C05-stream-leading-separator"
 		}
-		if cl == "" && bytes.IndexByte(b, 0) >= 0 {
-			// the stream uses NUL as its end-of-window sentinel: a NUL byte in the input ends it
-			cl = "C05-stream-nul"
-		}
 	}
 	c.Oracle("decoder-one-doc", in, fmt.Sprintf("%v (err=%v)", one, e1), fmt.Sprintf("%v", serr == nil), one == (serr == nil), cl)
 }
@@ -401,11 +397,9 @@ func c05Typed(c *Ctx, b []byte) {
 	in := fmt.Sprintf("%q", b)
 	// D07 (skipped parts only bracket-counted) and D02 (control bytes in strings) were repaired: no
 	// class explains an accepted invalid text any more
-	// the stream uses NUL as its end-of-window sentinel: a NUL byte in the input ends it (open finding)
+	// (a NUL byte in the input used to end the stream's window: repaired)
 	nulClass := ""
-	if bytes.IndexByte(b, 0) >= 0 {
-		nulClass = "C05-stream-nul"
-	} else if t := bytes.TrimLeft(b, " \t\r\n"); len(t) > 0 && (t[0] == ',' || t[0] == ':') {
+	if t := bytes.TrimLeft(b, " \t\r\n"); len(t) > 0 && (t[0] == ',' || t[0] == ':') {
 		// Decoder.Decode skips one leading ',' or ':' (PrepareForDecode) whatever the token state (open finding)
 		nulClass = "C05-stream-leading-separator"
 	}
